@@ -1011,6 +1011,25 @@ func callBuiltin(caller *frame, callpos token.Pos, fn *ssa.Builtin, args []value
 		chanClose(args[0])
 		return nil
 
+	case "clear": // clear(map) / clear(slice)
+		switch x := args[0].(type) {
+		case *smap:
+			if x != nil {
+				if R.raceOn() {
+					R.raceMap(x, true, caller, nil)
+				}
+				x.clear()
+			}
+		case []value:
+			// the element type is not passed to builtins: zero each element by its dynamic kind
+			for i := range x {
+				x[i] = zeroLike(x[i])
+			}
+		default:
+			panic(engineErr{fmt.Sprintf("clear of %T", x)})
+		}
+		return nil
+
 	case "delete": // delete(map[K]value, K)
 		switch m := args[0].(type) {
 		case *smap:
@@ -1628,4 +1647,66 @@ func copyVal(v value) value {
 		return c
 	}
 	return v
+}
+
+// zeroLike returns the zero value of the same dynamic representation as v (used by
+// the builtin clear, which does not know the static element type).
+func zeroLike(v value) value {
+	switch x := v.(type) {
+	case bool:
+		return false
+	case int:
+		return int(0)
+	case int8:
+		return int8(0)
+	case int16:
+		return int16(0)
+	case int32:
+		return int32(0)
+	case int64:
+		return int64(0)
+	case uint:
+		return uint(0)
+	case uint8:
+		return uint8(0)
+	case uint16:
+		return uint16(0)
+	case uint32:
+		return uint32(0)
+	case uint64:
+		return uint64(0)
+	case uintptr:
+		return uintptr(0)
+	case float32:
+		return float32(0)
+	case float64:
+		return float64(0)
+	case string:
+		return ""
+	case *value:
+		return (*value)(nil)
+	case []value:
+		return []value(nil)
+	case *smap:
+		return (*smap)(nil)
+	case *chanObj:
+		return (*chanObj)(nil)
+	case iface:
+		return iface{}
+	case structure:
+		out := make(structure, len(x))
+		for i := range x {
+			out[i] = zeroLike(x[i])
+		}
+		return out
+	case array:
+		out := make(array, len(x))
+		for i := range x {
+			out[i] = zeroLike(x[i])
+		}
+		return out
+	case *Sym:
+		return mkNative(x.K, 0)
+	}
+	panic(engineErr{fmt.Sprintf("clear: no zero value for %T", v)})
 }
